@@ -34,12 +34,13 @@ theorem struct_requires_object_full_false : ¬ struct_requires_object_full := by
 
 /-- the part that holds: for JSON objects required members and closedness are enforced -/
 theorem struct_object_partial (x : Ext) (σ : Space) (f : Nat) (ps : List Field) (deny : Bool)
-    (j : Json) (v : Val) (hobj : ∃ kvs, j = .obj kvs) (h : deStruct x σ (f + 1) ps deny j = .ok v) :
+    (j : Json) (v : Val) (hobj : ∃ kvs, j = .obj kvs) (hfl : hasFlatten ps = false)
+    (h : deStruct x σ (f + 1) ps deny j = .ok v) :
     ∃ kvs, j = .obj kvs ∧
       (∀ p ∈ ps, (p.state matches .required) → optionLikeT σ p.ty = false → (Json.lookup kvs p.wire).isSome) ∧
       (deny = true → ∀ kv ∈ kvs, ∃ p ∈ ps, p.wire = kv.1) := by
   obtain ⟨kvs, rfl⟩ := hobj
-  exact ⟨kvs, rfl, struct_object_enforced x σ f ps deny kvs v h⟩
+  exact ⟨kvs, rfl, struct_object_enforced x σ f ps deny kvs v hfl h⟩
 
 example : ∃ kvs, (Json.obj [("a", .int 1), ("b", .str "s")]) = .obj kvs := ⟨_, rfl⟩
 
